@@ -68,6 +68,12 @@ pub struct Ctx<'b> {
     pub aborted: Option<String>,
     /// stats().allocated() as of the previous recorded step
     pub prev_allocated: usize,
+    /// (current chunk start, position) as of the previous recorded step
+    pub prev_pos: (usize, usize),
+    /// handles that are currently claimed: (frame depth of the claim frame, the claimed handle)
+    pub claimed: Vec<(usize, *const (dyn ScopeOps + 'static))>,
+    pub depth: usize,
+    pub last_freed: Option<(u64, usize)>,
 }
 
 fn pattern(id: u64, generation: u32, off: usize) -> u8 {
@@ -163,6 +169,8 @@ impl<'b> Ctx<'b> {
             o.insert("stats".into(), json!(snap.stats));
             o.insert("pa".into(), json!(self.prev_allocated));
             self.prev_allocated = snap.stats[3];
+            o.insert("pp".into(), json!([self.prev_pos.0, self.prev_pos.1]));
+            self.prev_pos = if snap.cur > 0 { (snap.chunks[snap.cur - 1].start, snap.chunks[snap.cur - 1].pos) } else { (0, 0) };
             o.insert("any".into(), json!(snap.any));
             let anyeq = snap.any_chunks == snap.chunks && snap.any_cur == snap.cur;
             o.insert("anyeq".into(), json!(anyeq));
@@ -179,6 +187,8 @@ impl<'b> Ctx<'b> {
             o.insert("stats".into(), json!([0, 0, 0, 0, 0]));
             o.insert("pa".into(), json!(self.prev_allocated));
             self.prev_allocated = 0;
+            o.insert("pp".into(), json!([self.prev_pos.0, self.prev_pos.1]));
+            self.prev_pos = (0, 0);
             o.insert("any".into(), json!([0, 0, 0, 0, 0]));
             o.insert("anyeq".into(), json!(true));
             o.insert("rev".into(), json!(true));
@@ -259,6 +269,11 @@ pub fn exec(sc: &mut dyn ScopeOps, ctx: &mut Ctx<'_>) -> Flow {
                             ctx.blocks.insert(id, Blk { addr, sz: l.size(), al: l.align(), generation: 0 });
                             o.insert("_fresh".into(), json!(id));
                         }
+                        if let (Some(of), Some((fid, faddr))) = (args.get("of").and_then(|x| x.as_u64()), ctx.last_freed) {
+                            if of == fid {
+                                o.insert("freed".into(), json!(faddr));
+                            }
+                        }
                     }
                     Ok(Err(())) => o = Ctx::obs("err"),
                     Err(e) => {
@@ -275,6 +290,7 @@ pub fn exec(sc: &mut dyn ScopeOps, ctx: &mut Ctx<'_>) -> Flow {
                 let via = ctx.via("dealloc");
                 let mut o;
                 if let Some(blk) = ctx.blocks.remove(&id) {
+                    ctx.last_freed = Some((id, blk.addr));
                     let r = catch_unwind(AssertUnwindSafe(|| {
                         sc.deallocate(blk.addr, layout(blk.sz, blk.al), Wrap::parse(s(&args, "wrap")), via)
                     }));
@@ -378,6 +394,11 @@ pub fn exec(sc: &mut dyn ScopeOps, ctx: &mut Ctx<'_>) -> Flow {
                 let snap = sc.snapshot();
                 ctx.entries.push(entry_of(&snap));
                 ctx.cps_stack.push((std::mem::take(&mut ctx.cps), std::mem::take(&mut ctx.cp_entries)));
+                ctx.depth += 1;
+                if kind == "claim" {
+                    let hp: *const (dyn ScopeOps + '_) = &*sc;
+                    ctx.claimed.push((ctx.depth, unsafe { std::mem::transmute::<*const (dyn ScopeOps + '_), *const (dyn ScopeOps + 'static)>(hp) }));
+                }
                 let mut flow = Flow::End;
                 let r = catch_unwind(AssertUnwindSafe(|| match kind.as_str() {
                     "scope" => sc.scoped(&mut |inner| {
@@ -430,6 +451,10 @@ pub fn exec(sc: &mut dyn ScopeOps, ctx: &mut Ctx<'_>) -> Flow {
                     }),
                     other => panic!("unknown frame kind {other}"),
                 }));
+                if kind == "claim" {
+                    ctx.claimed.pop();
+                }
+                ctx.depth -= 1;
                 let entry = ctx.entries.pop().unwrap();
                 let (cps, cpe) = ctx.cps_stack.pop().unwrap();
                 ctx.cps = cps;
@@ -468,11 +493,100 @@ pub fn exec(sc: &mut dyn ScopeOps, ctx: &mut Ctx<'_>) -> Flow {
             }
             "guard_reset" => return Flow::GuardReset,
             "reset" | "reset_to_start" | "drop" => return Flow::BumpOp,
+            "alloc_huge" => {
+                ctx.pc += 1;
+                let al = u(&args, "al");
+                let l = layout((isize::MAX as usize - 63) & !63, al);
+                let via = ctx.via("alloc");
+                let r = catch_unwind(AssertUnwindSafe(|| sc.allocate(l, false, via)));
+                let mut o = match r {
+                    Ok(Ok(_)) => Ctx::obs("ok"),
+                    Ok(Err(())) => Ctx::obs("err"),
+                    Err(e) => {
+                        let mut o = Ctx::obs("panic");
+                        o.insert("msg".into(), json!(panic_msg(&e)));
+                        o
+                    }
+                };
+                o.insert("via".into(), json!(via));
+                ctx.record(i, Some(sc), o);
+            }
             "claimed_op" => {
-                // an operation through a handle that is currently claimed: handled by the claim frame (wave 2)
+                // an operation through a handle that is currently claimed
                 ctx.pc += 1;
                 let _ = exp;
-                ctx.record(i, Some(sc), Ctx::obs("skipped"));
+                let lvl = u(&args, "lvl");
+                let op = s(&args, "op").to_string();
+                let via = ctx.via(&op);
+                let Some(&(_, hp)) = ctx.claimed.iter().find(|(d, _)| *d == lvl) else {
+                    ctx.aborted = Some(format!("no claimed handle at level {lvl}"));
+                    return Flow::End;
+                };
+                let h: &dyn ScopeOps = unsafe { &*hp };
+                let id = u(&args, "id") as u64;
+                let blk = ctx.blocks.get(&id).cloned();
+                let new = layout(u(&args, "sz"), u(&args, "al").max(1));
+                let r = catch_unwind(AssertUnwindSafe(|| -> Result<Option<(usize, usize)>, ()> {
+                    match op.as_str() {
+                        "alloc" => h.allocate(new, false, via).map(Some),
+                        "reserve" => h.reserve(600, via).map(|_| None),
+                        "grow" => {
+                            let bk = blk.as_ref().unwrap();
+                            h.grow(bk.addr, layout(bk.sz, bk.al), new, false, Wrap::None, via).map(Some)
+                        }
+                        "shrink" => {
+                            let bk = blk.as_ref().unwrap();
+                            h.shrink(bk.addr, layout(bk.sz, bk.al), new, Wrap::None, via).map(Some)
+                        }
+                        "dealloc" => {
+                            let bk = blk.as_ref().unwrap();
+                            h.deallocate(bk.addr, layout(bk.sz, bk.al), Wrap::None, via);
+                            Ok(None)
+                        }
+                        "claim" => match h.claim_again() {
+                            Some(m) => std::panic::panic_any(m),
+                            None => Ok(None),
+                        },
+                        _ => Ok(None),
+                    }
+                }));
+                let mut o = match r {
+                    Ok(Ok(x)) => {
+                        let mut o = Ctx::obs("ok");
+                        if let Some((addr, len)) = x {
+                            o.insert("addr".into(), json!(addr));
+                            o.insert("len".into(), json!(len));
+                        }
+                        o
+                    }
+                    Ok(Err(())) => Ctx::obs("err"),
+                    Err(e) => {
+                        let mut o = Ctx::obs("panic");
+                        o.insert("msg".into(), json!(panic_msg(&e)));
+                        o
+                    }
+                };
+                match (op.as_str(), o["res"].as_str()) {
+                    ("dealloc", _) => {
+                        ctx.blocks.remove(&id);
+                    }
+                    ("shrink", Some("ok")) => {
+                        // the caller now owns a block of the new layout at the returned address (contents unchanged)
+                        if let (Some(bk), Some(addr)) = (blk.as_ref(), o.get("addr").and_then(|x| x.as_u64())) {
+                            o.insert("oaddr".into(), json!(bk.addr));
+                            if addr as usize == bk.addr {
+                                ctx.blocks.insert(id, Blk { addr: bk.addr, sz: new.size(), al: new.align(), generation: bk.generation });
+                            }
+                        }
+                    }
+                    _ => {}
+                }
+                let cs = h.snapshot();
+                o.insert("cstats".into(), json!(cs.stats));
+                o.insert("cany".into(), json!(cs.any));
+                o.insert("cclaimed".into(), json!(h.is_claimed()));
+                o.insert("via".into(), json!(via));
+                ctx.record(i, Some(sc), o);
             }
             other => {
                 ctx.aborted = Some(format!("unknown action {other}"));
@@ -560,7 +674,7 @@ pub fn run_root(make: &mut dyn FnMut(&Value) -> Option<Box<dyn BumpOps>>, ctx: &
         "grants".into(),
         Value::Array(r_.grants.borrow().iter().map(|g| json!([g.addr, g.req, g.granted, g.align, g.live, g.frees])).collect()),
     );
-    for (k, v) in [("chunks", json!([])), ("cur", json!(0)), ("stats", json!([0, 0, 0, 0, 0])), ("pa", json!(ctx.prev_allocated)),
+    for (k, v) in [("chunks", json!([])), ("cur", json!(0)), ("stats", json!([0, 0, 0, 0, 0])), ("pa", json!(ctx.prev_allocated)), ("pp", json!([ctx.prev_pos.0, ctx.prev_pos.1])),
                    ("any", json!([0, 0, 0, 0, 0])), ("anyeq", json!(true)), ("rev", json!(true)), ("claimed", json!(false)),
                    ("ma", json!(1)), ("blocks", json!([])), ("damaged", json!([]))] {
         o.insert(k.into(), v);
